@@ -328,11 +328,22 @@ class World:
             self.handles[hname] = Container(self.root)
         elif name == 'init_again':
             before = rawread.Snapshot(self.root)
+            bad = op.get('bad')
+            kwargs = dict(op.get('cfg', self.cfg))
+            if bad == 'hash_type':
+                kwargs['hash_type'] = 'md5'
+            elif bad == 'prefix':
+                kwargs['loose_prefix_len'] = -1
+            elif bad == 'pack_size':
+                kwargs['pack_size_target'] = 0
             try:
-                Container(self.root).init_container(clear=False, **op.get('cfg', self.cfg))
-                self.problem('init-not-refused', 'init_container() on an initialised folder did not raise')
-            except FileExistsError:
-                pass
+                # with invalid parameters even clear=True must be refused before anything is touched
+                Container(self.root).init_container(clear=bool(bad), **kwargs)
+                self.problem('init-not-refused', f'init_container({"clear=True, invalid " + bad if bad else ""}) on an initialised folder did not raise')
+            except (FileExistsError, ValueError) as exc:
+                if bool(bad) != isinstance(exc, ValueError):
+                    self.problem('init-refusal-kind', f'init_container(bad={bad}) raised {exc!r}')
+            self.counters['refused-init:' + (bad or 'exists')] += 1
             after = rawread.Snapshot(self.root)
             if (before.rows, sorted(before.loose), before.packs, before.config) != (
                 after.rows, sorted(after.loose), after.packs, after.config
@@ -340,6 +351,13 @@ class World:
                 self.problem('init-changed', 'refused init_container() changed the container')
         elif name == 'damage_loose_readd':
             self._damage_readd(cont, op)
+        elif name == 'damage_loose':  # damage the loose copy in place (the model keeps the right bytes)
+            k = self.key(op['c'])
+            path = rawread.loose_keys(self.root, self.cfg['loose_prefix_len'])[k]
+            with open(path, 'r+b') as fh:
+                first = fh.read(1)
+                fh.seek(0)
+                fh.write(bytes([first[0] ^ 0x55]) if first else b'X')
         else:
             raise AssertionError(f'unknown op {name}')
 
